@@ -1316,10 +1316,134 @@ impl SchedX {
         out
     }
 
+    /// L3: a commit whose hash-table write-out fails at its first page while ≈40 more page writes
+    /// are queued on a slow device (2 ms per page write); the poisoned handle is dropped and a
+    /// second handle opened: no page write of the old handle may be PERFORMED after that open
+    /// returned ("lock released only after the I/O pool has drained").
+    fn run_late_io(&mut self, name: &str) -> Outcome {
+        use nomt::verif::io as vio;
+        let mut out = Outcome::default();
+        out.nontrivial = true;
+        let dir = self.fresh();
+        let mut cf = cfg();
+        cf.buckets = 4096;
+        cf.rollback = false;
+        let pair = |i: u8, side: u8| {
+            let mut k = [0u8; 32];
+            k[0] = (i << 2) | side;
+            k[31] = 1;
+            k
+        };
+        let n = open_nomt::<B3>(&dir, &cf).expect("open");
+        commit_kv(&n, &[(pair(63, 0), Some(val(1)))]).expect("base commit");
+        // 40 pairs: 40 fresh depth-1 pages, i.e. 40 bucket pages + meta pages in one write-out
+        let mut batch: Vec<(Key, Option<Vec<u8>>)> = vec![];
+        for i in 0..40u8 {
+            batch.push((pair(i, 0), Some(val(2))));
+            batch.push((pair(i, 1), Some(val(3))));
+        }
+        vio::enable();
+        vio::set_page_write_delay(2000);
+        vio::arm(vio::Fault { file: "ht".into(), tag: "write".into(), ordinal: 0, persistent: false, page_at: vio::PageFaultAt::Submission, abort: false });
+        let r = commit_kv(&n, &batch);
+        drop(n);
+        vio::mark("old-handle-dropped");
+        let me = std::thread::current().name().unwrap_or("?").to_string();
+        let second = crate::driver::open_nomt_retry::<B3>(&dir, &cf, 10);
+        vio::mark("second-handle-open");
+        std::thread::sleep(Duration::from_millis(400));
+        vio::set_page_write_delay(0);
+        let (events, fired) = vio::disable();
+        out.transitions = events.len() as u64;
+        if r.is_ok() || fired == 0 {
+            out.violation = Some(Violation::new("machinery", format!("harness {name}: the injected hash-table write failure did not fail the commit (fired {fired}, result {r:?})")));
+            return out;
+        }
+        out.goals.push("commit-failed-in-ht-writeout");
+        let n2 = match second {
+            Ok(n2) => n2,
+            Err(e) => {
+                out.violation = Some(Violation::new(format!("reopen-after-failed-commit:{name}"), format!("harness {name}: the directory cannot be opened after the poisoned handle was dropped: {e:#}")));
+                return out;
+            }
+        };
+        let mark = events.iter().find(|e| matches!(&e.kind, vio::Kind::Mark(l) if l == "second-handle-open")).map(|e| e.seq).unwrap_or(u64::MAX);
+        let dropped = events.iter().find(|e| matches!(&e.kind, vio::Kind::Mark(l) if l == "old-handle-dropped")).map(|e| e.seq).unwrap_or(0);
+        let queued_at_error = events.iter().filter(|e| e.file == "ht" && matches!(e.kind, vio::Kind::Write { .. }) && e.seq < dropped).count();
+        if queued_at_error > 10 {
+            out.goals.push("page-writes-queued-behind-the-failure");
+        }
+        // operations of the old handle: everything issued before its drop returned, and anything
+        // another thread issues later (the second handle is idle, its open runs on this thread)
+        let late: Vec<String> = events
+            .iter()
+            .filter(|e| !matches!(e.kind, vio::Kind::Mark(_)))
+            .filter(|e| (e.seq < dropped && e.performed.map_or(false, |p| p > mark)) || (e.seq > mark && e.thread != me))
+            .map(|e| format!("{}:{}", e.file, e.kind.tag()))
+            .collect();
+        if !late.is_empty() {
+            out.violation = Some(Violation::new(
+                format!("io-after-unlock:{}:{name}", late[0]),
+                format!("harness {name}: a commit failed in the hash-table write-out with page writes still queued; the handle was dropped and a second handle opened (so the directory lock had been released), and {} file operation(s) of the OLD handle were performed after that: {}", late.len(), late.iter().take(6).cloned().collect::<Vec<_>>().join(", ")),
+            ));
+            std::mem::forget(n2);
+            return out;
+        }
+        drop(n2);
+        out
+    }
+
+    /// L4: a session with warm-up enabled is abandoned (dropped without `finish`), the handle is
+    /// dropped, and the directory must become openable again within a bounded time (a background
+    /// worker of the abandoned session must not keep the store - and its lock - alive).
+    fn run_abandoned_warm_up(&mut self, name: &str) -> Outcome {
+        let mut out = Outcome::default();
+        out.nontrivial = true;
+        let dir = self.fresh();
+        let mut cf = cfg();
+        cf.warm_up = true;
+        cf.rollback = false;
+        let n = open_nomt::<B3>(&dir, &cf).expect("open");
+        commit_kv(&n, &[(ka(), Some(val(1))), (kb(), Some(val(2)))]).expect("base commit");
+        for abandon_with_reads in [false, true] {
+            let s = n.begin_session(SessionParams::default());
+            s.warm_up(ka());
+            s.warm_up(kb());
+            if abandon_with_reads {
+                let _ = s.read(ka());
+            }
+            drop(s);
+            out.transitions += 1;
+        }
+        drop(n);
+        match crate::driver::open_nomt_retry::<B3>(&dir, &cf, 8) {
+            Ok(n2) => {
+                out.goals.push("reopened-after-abandoned-warm-up-sessions");
+                let a = n2.read(ka()).ok().flatten().map(|v| v[0]);
+                if a != Some(1) {
+                    out.violation = Some(Violation::new(format!("state-after-abandoned-session:{name}"), format!("harness {name}: second handle reads ka = {a:?}")));
+                }
+            }
+            Err(e) => {
+                out.violation = Some(Violation::new(
+                    format!("lock-pinned-by-abandoned-session:{name}"),
+                    format!("harness {name}: sessions with warm-up were dropped without finish, then the handle was dropped, but the directory could not be opened again within 8 s: {e:#}"),
+                ));
+            }
+        }
+        out
+    }
+
     fn run_case(&mut self, prop: &str, case: &Value) -> Outcome {
         let name = case["harness"].as_str().unwrap().to_string();
         if name == "L1" || name == "L2" {
             return self.run_late_writers(&name);
+        }
+        if name == "L3" {
+            return self.run_late_io(&name);
+        }
+        if name == "L4" {
+            return self.run_abandoned_warm_up(&name);
         }
         let bound = case["bound"].as_u64().unwrap() as usize;
         let fixed: Option<Vec<usize>> = case.get("schedule").and_then(|s| s.as_array()).map(|a| a.iter().map(|x| x.as_u64().unwrap() as usize).collect());
@@ -1388,8 +1512,8 @@ impl Engine for SchedX {
                 "schedx: closed harnesses of 2–3 real threads on two colliding keys (same value leaf, same merkle page), values stamped with the writer's version, rollback enabled: H1 reader∥blocking writer; H2 reader∥non-blocking writer (prepared changeset, retried blocking when handed back); H3/H3nb/H3ov two writers with changesets on one base (blocking / non-blocking / overlay) followed by reopen and rollback(1); H4 reader∥rollback; H5 reader∥writer∥writer; H6 one thread with two overlapping sessions∥writer; H7 two threads proving different keys (present and absent) through ONE shared session on a cold store, with scheduling points at every I/O submission and every wait for a completion of the calling threads (the scheduler lets outstanding reads complete before it decides, so the enabled set does not depend on I/O speed). EVERY schedule of the visible points (API lock acquisitions with parking_lot's writer-preferring FIFO fairness modelled in the scheduler, the read-transaction wait, harness points between session operations) with ≤c preemptions is executed on a fresh store, c = 0,1,2 (thorough 3). Oracle per schedule: terminates (no enabled thread = deadlock); all reads and the proof of one session agree with one committed version and with session.prev_root(); exactly one of two competing changesets wins; final state, root and state after reopen are the winner's; rollback(1) restores the base. One case = one harness × one bound; evaluations = cases, transitions = scheduler steps, states = distinct schedules (trace digests).",
             ),
             "C20" => (
-                vec!["O1", "O2", "O2x3", "O3", "O4", "L1", "L2"],
-                "schedx: O1 two threads open one existing directory concurrently; O2 / O2x3 two / three threads open one non-existent directory (creation race) with different options; O3 a live handle ∥ a second opener that retries after the first is dropped; O4 a holder that drops ∥ two openers (three-party hand-over). L1 / L2 (rollback off / on; one fixed order of events, bounds do not apply): a commit on a full 4-bucket table that fails with bucket exhaustion while the value store has ≈60 pages to write, executed with every sync-pipeline task held back until somebody waits for it (a task nobody joins runs as late as possible); the handle is dropped, a second handle is opened, and every mutating or syncing file operation recorded after that open returned must come from the opening thread — 'all background writers of the old handle have finished'; the second handle shows the state before the failed commit and commits. Every schedule of the open/create/lock/drop points (emptiness check, lock acquisition, creation of meta / hash table / value files, flock try and unlock, I/O-pool shutdown) with ≤c preemptions, c = 0,1,2 (thorough 3). Oracle: never two handles alive at once; a refused open returns an error and leaves every file byte-identical (holder idle); every successful opener's handle commits and reads back; whenever some opener succeeded, the directory afterwards opens and holds the last committed state (no racing opener may wipe or re-initialise it).",
+                vec!["O1", "O2", "O2x3", "O3", "O4", "L1", "L2", "L3", "L4"],
+                "schedx: O1 two threads open one existing directory concurrently; O2 / O2x3 two / three threads open one non-existent directory (creation race) with different options; O3 a live handle ∥ a second opener that retries after the first is dropped; O4 a holder that drops ∥ two openers (three-party hand-over). L1 / L2 (rollback off / on; one fixed order of events, bounds do not apply): a commit on a full 4-bucket table that fails with bucket exhaustion while the value store has ≈60 pages to write, executed with every sync-pipeline task held back until somebody waits for it (a task nobody joins runs as late as possible); the handle is dropped, a second handle is opened, and every mutating or syncing file operation recorded after that open returned must come from the opening thread — 'all background writers of the old handle have finished'; the second handle shows the state before the failed commit and commits. L3: a commit whose hash-table write-out fails at its first page (injected) while ≈40 more page writes are queued on a slow device (2 ms per write): after drop and second open no page write of the old handle may be performed. L4: sessions with warm-up abandoned without finish, handle dropped: the directory must become openable again within 8 s. Every schedule of the open/create/lock/drop points (emptiness check, lock acquisition, creation of meta / hash table / value files, flock try and unlock, I/O-pool shutdown) with ≤c preemptions, c = 0,1,2 (thorough 3). Oracle: never two handles alive at once; a refused open returns an error and leaves every file byte-identical (holder idle); every successful opener's handle commits and reads back; whenever some opener succeeded, the directory afterwards opens and holds the last committed state (no racing opener may wipe or re-initialise it).",
             ),
             _ => panic!("schedx has no plan for {prop}"),
         };
